@@ -357,11 +357,15 @@ impl<'a, F: FeatureProvider, V: VariationInfo> CompilationCtx<'a, F, V> {
         }
 
         if !self.mark_attach_class_id.is_empty() {
-            gdef.mark_attach_class.extend(
-                self.mark_attach_class_id
-                    .iter()
-                    .flat_map(|(cls, id)| cls.iter().map(|gid| (gid, *id))),
-            );
+            // in class id (i.e. declaration) order, not HashMap order: if classes overlap,
+            // a glyph stays in the class that was declared first
+            let mut classes = self.mark_attach_class_id.iter().collect::<Vec<_>>();
+            classes.sort_by_key(|(_, id)| **id);
+            for (cls, id) in classes {
+                for gid in cls.iter() {
+                    gdef.mark_attach_class.entry(gid).or_insert(*id);
+                }
+            }
         }
 
         if !self.mark_filter_sets.is_empty() {
